@@ -69,6 +69,8 @@ type Check struct {
 	Workers     int // 0 = default 16
 	// WatchdogSec: no progress on one case for this long = hang (confirmed afterwards).
 	WatchdogSec int
+	// SchedulerStyle: states = schedules explored, transitions = scheduling steps (Ops), traces = schedules.
+	SchedulerStyle bool
 	// Extra is merged into coverage.
 	Extra func(tier string) map[string]interface{}
 }
